@@ -212,17 +212,26 @@ PROPS = {
         own_files=['Lemmas/LC10.v', 'Props/C10.v'],
         corr=[dict(script='corr_oppoint.py', n=400, n_thorough=10000)],
         search='C10.py', budget_quick=50, budget_thorough=800, search_timeout=3400,
-        partial=['C10_lands_on_root: that the unbracketed secant search, started at qimin and the mid flow, lands on the stable intersection right of '
-                 'qimin whenever the curves meet is not proved (it needs convexity / monotonicity of graded-sand system curves and driver-limited '
-                 'pump curves); searched against an independent bisection on real pipelines',
-                 'C10_qimin: the minimum-friction flow comes from scipy.optimize.minimize_scalar(bounded), an oracle; its quality is searched only',
-                 'heads equal within 1e-6 relative: proved is |gap(b)| <= 1.48e-8 x |secant slope| at the last evaluated flow'],
-        level_text='Proof (model of find_operating_point with scipy\'s secant written out, for every head-gap function): pump head below system head at '
-                   'qimin gives OperatingPointError; the only outcomes are a root the secant reports as converged, OperatingPointError, or scipy\'s '
-                   'ValueError exactly when the two starting flows coincide; a converged root is one secant update, at most 1.48e-8 away, from the '
-                   'last evaluated flow, where the heads differ by at most 1.48e-8 times the local secant slope.',
-        level_note='The secant model is compared bit for bit (outcome, root, every visited flow) with the real scipy root_scalar through the real '
-                   'find_operating_point on recorded gap tables of eight curve shapes. The main landing clause is partial (search).',
+        partial=['C10 landing clause: PROVED after the repair of find_operating_point (C10_lands): whenever the pump head is at least the system head '
+                 'at qimin and below it at the largest flow, a flow is returned -- the converged secant root at or right of qimin or, when the '
+                 'unbracketed search cycled / wandered out of a table / landed left of qimin, the bracketing solver\'s root, accepted only when the '
+                 'heads agree to 1e-6 relative (a jump across zero is rejected).  That scipy\'s bracketing solver answers inside its bracket at a '
+                 'sign change is an oracle assumption; that the root returned is THE crossing when there are several is not claimed; both are '
+                 'searched against an independent bisection on real pipelines',
+                 'C10_qimin: the minimum-friction flow comes from scipy.optimize.minimize_scalar(bounded) followed (after the repair) by a '
+                 'comparison with the best tabulated flow; its value is an oracle input of the model and its quality is searched only',
+                 'heads equal within 1e-6 relative: by construction for a bracketed root; for a secant root proved is |gap(b)| <= 1.48e-8 x '
+                 '|secant slope| at the last evaluated flow'],
+        level_text='Proof (model of find_operating_point with scipy\'s secant written out and the bracketing solver as an oracle, for every head-gap '
+                   'function and every set of flows at which evaluating it raises IndexError): pump head below system head at qimin gives '
+                   'OperatingPointError; a flow is returned only as a converged secant root at or right of qimin or as the bracketing solver\'s '
+                   'answer with heads equal to 1e-6 relative; an IndexError raised inside the unbracketed search is swallowed; ValueError exactly '
+                   'when the two starting flows coincide; the landing clause (a flow IS returned when the gap changes sign and the bracketing '
+                   'solver finds a genuine root); a converged secant root is one secant update, at most 1.48e-8 away, from the last evaluated flow, '
+                   'where the heads differ by at most 1.48e-8 times the local secant slope.',
+        level_note='The model is compared bit for bit (outcome, root, every flow visited by the secant search) with the real find_operating_point on '
+                   'recorded gap tables of twelve curve shapes, incl. kinked, jumping and finite-range (IndexError) pump curves; the bracketing '
+                   'solver\'s answer is recorded and replayed as an oracle.',
     ),
     'C13': dict(
         own_files=['Lemmas/LC13.v', 'Props/C13.v'],
